@@ -436,6 +436,7 @@ def touch_spec(n_rows, sp_hand, udi, stop_at_rounds, calls, is_rounds_row, metho
         m = 2 if sp_hand else 3
     k = None                       # next method row index, None when not in the method
     thats_all_at = None
+    ta_idle_row = None
     stand = False
     to_rounds_from = None          # rows >= this are rounds
     to_opening_from = None
@@ -447,7 +448,7 @@ def touch_spec(n_rows, sp_hand, udi, stop_at_rounds, calls, is_rounds_row, metho
                     continue
                 in_method = kinds[i - 1] != "O" and kinds[i - 1] != "R" and to_opening_from is None
                 if c == "Go" and not in_method:
-                    if thats_all_at is not None:
+                    if thats_all_at is not None or ta_idle_row == i - 1:
                         return None      # Go right after a That's all in rounds: same corner as below
                     g = i - 1
                     m = g + 1 if ((g + 1) % 2 == 0) == sp_hand else g + 2
@@ -457,7 +458,10 @@ def touch_spec(n_rows, sp_hand, udi, stop_at_rounds, calls, is_rounds_row, metho
                         # text does not settle (the model covers it; this oracle abstains)
                         return None
                     if not in_method:
-                        continue      # rounds / the opening row is being rung anyway: nothing to come back to
+                        # rounds / the opening row is being rung anyway: nothing to come back to.  (If somebody says Go
+                        # later in this very row, the two calls meet at the turnover: not settled by the property's text.)
+                        ta_idle_row = i - 1
+                        continue
                     thats_all_at = i - 1
                 elif c == "Stand next":
                     stand = True
